@@ -218,5 +218,8 @@ def answer (he : HostEnv) (w : World) : Interp.HostOp → R (Interp.HostResp × 
   | .loadAccountDelegated a => do
     let (w, isEmpty, cold, dcold) ← w.loadAccountDelegated a
     pure ({ isEmpty := isEmpty, isCold := cold, delegCold := dcold }, w)
+  -- EOFCREATE: `target_address.create2(salt, keccak256(container))` (computed by the instruction itself)
+  | .create2Address deployer salt container =>
+    pure ({ word := Keccak.create2Address deployer salt (Keccak.keccak256w container) }, w)
 
 end Revm.Model.Evm
